@@ -81,6 +81,17 @@ func coinPB(denom, amt string) *basev1beta1.Coin { return &basev1beta1.Coin{Deno
 // Denoms used by the workload.
 var workDenoms = []string{"uregen", "uusd", "ufoo", "stake"}
 
+// extraDenoms: valid bank denoms of other shapes: one that extends another
+// denom ("uusd" is a prefix of "uusdc"), an IBC voucher, a case variant.
+var extraDenoms = []string{"uusdc", "ibc/27394FB092D2ECCD56123C74F36E4C1F926001CEADA9CA97EA622B25F41E5EB2", "uUSD"}
+
+func (g *Gen) anyDenom() string {
+	if g.R.Chance(0.25) {
+		return Pick(g.R, extraDenoms)
+	}
+	return Pick(g.R, workDenoms)
+}
+
 type feeChoice struct{ denom, amt string }
 
 var classFeeChoices = []*feeChoice{nil, {"stake", "20000000"}, {"uregen", "1000"}, {"uusd", "1"}}
@@ -153,7 +164,7 @@ func (g *Gen) buildGenesis() *GenesisDoc {
 	// funding
 	for i, a := range g.Actors {
 		coins := ""
-		for _, d := range workDenoms {
+		for _, d := range append(append([]string{}, workDenoms...), extraDenoms...) {
 			amt := "1000000000000"
 			switch {
 			case i == len(g.Actors)-1 && r.Chance(0.5):
